@@ -830,10 +830,11 @@ class Program:
                         break
         return out
 
-    def field_accesses(self, adt, field, within=None):
-        """(body, bb, idx|'term', 'read'|'write'|'ref'|'refmut', stmt_or_term) for every place mentioning adt.field"""
+    def field_accesses(self, adt, field, within=None, bodies=None):
+        """(body, bb, idx|'term', 'read'|'write'|'ref'|'refmut', stmt_or_term) for every place mentioning adt.field
+        (`bodies`: scan these Body objects — e.g. virtual bodies with helpers spliced in — instead of the program's)"""
         out = []
-        for k, b in self.bodies.items():
+        for k, b in (self.bodies.items() if bodies is None else [(x.npath, x) for x in bodies]):
             if within is not None and k not in within:
                 continue
             for bb, i, s in b.stmts():
